@@ -7,6 +7,12 @@ Prefixes are read where the code keeps them:
   ParseAPI._*_prefix, _bech32_hrp                                (what *parses* text)
   the closures wif_for_blob / bip32_as_string / bip49_as_string / bip84_as_string are probed by calling them on an
   empty blob and decoding the Base58Check they return (so a changed constant inside the closure shows up here).
+
+Checksum hash (`HashKind`): which hash a network uses is found by PROBING, per code path — `address.b2a`, `wif_for_blob`,
+`bipNN_as_string` are called on a blob and the four checksum bytes of the text they return are compared with double SHA-256
+and with the Groestl hash; `parse.parse_b58_hashed` is offered the same payload under either checksum.  The Groestl hash is
+the stand-in of translate/grs_stub.py (installed before the Groestlcoin-family symbol modules are (re)imported, so that they
+keep their real code paths instead of `none_parser`); the model mirrors the stand-in.
 """
 from __future__ import annotations
 
@@ -23,14 +29,59 @@ def opt(x, f):
     return "none" if x is None else "(some %s)" % f(x)
 
 
-def _probe_prefix(f, *args):
-    """prefix used by a `*_as_string`/`wif_for_blob` closure: call it on an empty blob, decode the Base58Check"""
-    from pycoin.encoding.b58 import a2b_hashed_base58
+import hashlib
+
+import grs_stub
+
+HASHES = {
+    "sha256d": lambda b: hashlib.sha256(hashlib.sha256(b).digest()).digest(),
+    "groestl": lambda b: hashlib.sha256(grs_stub.PREFIX + b).digest(),
+}
+
+
+def _kind_of(raw):
+    """which checksum hash the decoded Base58 bytes `raw` = payload + 4 carry"""
+    hits = [k for k, h in HASHES.items() if len(raw) >= 4 and h(raw[:-4])[:4] == raw[-4:]]
+    if len(hits) != 1:
+        raise ValueError("checksum of a produced Base58Check text is that of %s" % (hits or "no known hash"))
+    return hits[0]
+
+
+def _probe(f, *args):
+    """(prefix, hash kind) used by a `*_as_string`/`wif_for_blob` closure: call it on an empty blob and on a marker blob,
+    decode the Base58 text; None when the closure raises (no prefix configured -> TypeError)"""
+    from pycoin.encoding.b58 import a2b_base58
     try:
-        s = f(b"", *args)
-        return a2b_hashed_base58(s)
-    except Exception:  # noqa: BLE001  (no prefix configured -> TypeError; groestl hash absent -> ImportError/…)
+        s0, s1 = f(b"", *args), f(b"\xa5" * 7, *args)
+    except TypeError:
         return None
+    r0, r1 = a2b_base58(s0), a2b_base58(s1)
+    k0, k1 = _kind_of(r0), _kind_of(r1)
+    if k0 != k1 or r1[:-4] != r0[:-4] + b"\xa5" * 7:
+        raise ValueError("closure %s is not prefix + blob under one checksum hash" % getattr(f, "__name__", f))
+    return r0[:-4], k0
+
+
+def _probe_b2a(b2a):
+    from pycoin.encoding.b58 import a2b_base58
+    raw = a2b_base58(b2a(b"\x5a" * 21))
+    if raw[:-4] != b"\x5a" * 21:
+        raise ValueError("address.b2a is not Base58 of payload + checksum")
+    return _kind_of(raw)
+
+
+def _probe_parse(p):
+    """the checksum hash `parse_b58_hashed` accepts: offered one payload under either checksum"""
+    from pycoin.encoding.b58 import b2a_base58
+    payload = b"\x5a" * 21
+    hits = [k for k, h in HASHES.items() if p.parse_b58_hashed(b2a_base58(payload + h(payload)[:4])) == payload]
+    if len(hits) != 1:
+        raise ValueError("%s.parse_b58_hashed accepts the checksum of %s" % (type(p).__name__, hits or "no known hash"))
+    return hits[0]
+
+
+def _kind(k):
+    return ".sha256d" if k == "sha256d" else ".groestl"
 
 
 def _sec_prefix(x):
@@ -43,6 +94,19 @@ def _sec_prefix(x):
 
 
 def networks():
+    import sys
+    before = sys.modules.get("groestlcoin_hash")
+    grs_stub.install()
+    try:
+        return _networks()
+    finally:                       # as gen_pstr.py: leave the translator process as it was
+        if before is None:
+            sys.modules.pop("groestlcoin_hash", None)
+        else:
+            sys.modules["groestlcoin_hash"] = before
+
+
+def _networks():
     import pycoin.symbols
     from pycoin.networks.registry import network_codes, network_for_netcode
     from pycoin.networks.ParseAPI import ParseAPI
@@ -52,11 +116,28 @@ def networks():
     out = []
     for modname in mods:
         module = importlib.import_module("pycoin.symbols." + modname)
+        if any(not k.startswith("_") for k in vars(module.network.parse)):
+            # imported earlier in this process without the stand-in hash (none_parser patched in): import it again
+            module = importlib.reload(module)
         n = module.network
         p, a = n.parse, n.address
         # parser entry points replaced on the instance (grs.py swaps in none_parser when groestlcoin_hash is missing)
         overridden = sorted(k for k in vars(p) if not k.startswith("_"))
-        b58_default = (a.b2a is b2a_hashed_base58) and (type(p).parse_b58_hashed is ParseAPI.parse_b58_hashed)
+        hash_parse = _probe_parse(p)
+        wif, b32v, b32u = _probe(n.wif_for_blob), _probe(n.bip32_as_string, True), _probe(n.bip32_as_string, False)
+        b49v, b49u = _probe(n.bip49_as_string, True), _probe(n.bip49_as_string, False)
+        b84v, b84u = _probe(n.bip84_as_string, True), _probe(n.bip84_as_string, False)
+
+        def pfx(x):
+            return None if x is None else x[0]
+
+        def kind2(x, y, what):
+            """one closure serves the private and the public form: both must use one hash; an unobservable one (the closure
+            raises for lack of a prefix) is reported as the parse side's"""
+            ks = {t[1] for t in (x, y) if t is not None}
+            if len(ks) > 1:
+                raise ValueError("%s.%s uses two checksum hashes" % (modname, what))
+            return _kind(ks.pop() if ks else hash_parse)
         fields = [
             ("module", lean_str(modname)),
             ("symbol", lean_str(n.symbol)),
@@ -70,7 +151,7 @@ def networks():
             ("parseP2sh", opt(p._pay_to_script_prefix, lean_bytes)),
             ("parseHrp", opt(p._bech32_hrp, lean_str)),
             ("parseWif", opt(p._wif_prefix, lean_bytes)),
-            ("outWif", opt(_probe_prefix(n.wif_for_blob), lean_bytes)),
+            ("outWif", opt(pfx(wif), lean_bytes)),
             ("secPrefix", _sec_prefix(p._sec_prefix)),
             ("parseBip32Prv", opt(p._bip32_prv_prefix, lean_bytes)),
             ("parseBip32Pub", opt(p._bip32_pub_prefix, lean_bytes)),
@@ -78,15 +159,20 @@ def networks():
             ("parseBip49Pub", opt(p._bip49_pub_prefix, lean_bytes)),
             ("parseBip84Prv", opt(p._bip84_prv_prefix, lean_bytes)),
             ("parseBip84Pub", opt(p._bip84_pub_prefix, lean_bytes)),
-            ("outBip32Prv", opt(_probe_prefix(n.bip32_as_string, True), lean_bytes)),
-            ("outBip32Pub", opt(_probe_prefix(n.bip32_as_string, False), lean_bytes)),
-            ("outBip49Prv", opt(_probe_prefix(n.bip49_as_string, True), lean_bytes)),
-            ("outBip49Pub", opt(_probe_prefix(n.bip49_as_string, False), lean_bytes)),
-            ("outBip84Prv", opt(_probe_prefix(n.bip84_as_string, True), lean_bytes)),
-            ("outBip84Pub", opt(_probe_prefix(n.bip84_as_string, False), lean_bytes)),
+            ("outBip32Prv", opt(pfx(b32v), lean_bytes)),
+            ("outBip32Pub", opt(pfx(b32u), lean_bytes)),
+            ("outBip49Prv", opt(pfx(b49v), lean_bytes)),
+            ("outBip49Pub", opt(pfx(b49u), lean_bytes)),
+            ("outBip84Prv", opt(pfx(b84v), lean_bytes)),
+            ("outBip84Pub", opt(pfx(b84u), lean_bytes)),
             ("parseApi", lean_str(type(p).__name__)),
             ("txClass", lean_str(n.tx.__module__ + "." + n.tx.__name__)),
-            ("b58DoubleSha", "true" if b58_default else "false"),
+            ("hashParse", _kind(hash_parse)),
+            ("hashAddr", _kind(_probe_b2a(a.b2a))),
+            ("hashWif", kind2(wif, None, "wif_for_blob")),
+            ("hashBip32", kind2(b32v, b32u, "bip32_as_string")),
+            ("hashBip49", kind2(b49v, b49u, "bip49_as_string")),
+            ("hashBip84", kind2(b84v, b84u, "bip84_as_string")),
             ("disabled", "[" + ", ".join(lean_str(k) for k in overridden) + "]"),
         ]
         out.append((modname, fields))
